@@ -49,7 +49,20 @@ func propC15(c *Ctx) {
 		}
 	}
 	// "#after" halves: compared with constants only
-	withClosures(cui, func(f *ssa.Function) {
+	// (in the validator and in what it calls: a method of a small checker value may do the cutting)
+	var cuiFns []*ssa.Function
+	for f := range res.Reachable(cui) {
+		if f.Blocks != nil && isRepoFunc(f) && f != safe {
+			cuiFns = append(cuiFns, f)
+		}
+	}
+	sortFuncs(cuiFns)
+	forEachFn := func(_ *ssa.Function, visit func(*ssa.Function)) {
+		for _, f := range cuiFns {
+			visit(f)
+		}
+	}
+	forEachFn(cui, func(f *ssa.Function) {
 		allInstrs(f, func(in ssa.Instruction) {
 			ex, ok := in.(*ssa.Extract)
 			if !ok || ex.Index != 1 {
@@ -127,6 +140,14 @@ func propC15(c *Ctx) {
 	}
 	fileValidated := func(path string) bool { return safePaths[path] || validatedByParts(path) }
 	c.Stats["safe_paths"] = len(safePaths)
+	if debugOn() {
+		var ps []string
+		for k := range safePaths {
+			ps = append(ps, k)
+		}
+		sort.Strings(ps)
+		fmt.Printf("DEBUG safePaths: %v\n", ps)
+	}
 
 	// ---- R15.3 ingress rules (computed first: R15.2 depends on them) -------
 	c.Rule("R15.3", "every configuration ingress is dominated by its validator, the error is tested and the failing arm does not reach the sink", 8)
@@ -199,11 +220,26 @@ func propC15(c *Ctx) {
 		}
 		c.Check("R15.3", "ValidateFix/CheckUserInput(*conf)", vf.Pos(), okVF, "ValidateFix hands the whole configuration to CheckUserInput and fails when it fails")
 	}
-	// CheckUserInput returns the accumulated error; a Safe error is never cleared
-	okAcc := false
-	{
+	// safeLike: wstrings.Safe, or a wrapper that returns nil only when Safe(its parameter) did (it decorates the error)
+	safeLike := func(f *ssa.Function) bool {
+		if f == safe {
+			return true
+		}
+		if f == nil || f.Blocks == nil || !isRepoFunc(f) {
+			return false
+		}
+		for _, cs := range callsToFn(f, safe) {
+			if _, isParam := stripConv(cs.Call.Args[0]).(*ssa.Parameter); isParam && nilOnlyAfter(cs) {
+				return true
+			}
+		}
+		return false
+	}
+	// a validator returns the accumulated error (a Safe error is never cleared) …
+	accumulates := func(vfn *ssa.Function) bool {
+		okAcc := false
 		var errCell *ssa.Alloc
-		for _, r := range returnsOf(cui) {
+		for _, r := range returnsOf(vfn) {
 			if u, ok := returnValues(r)[0].(*ssa.UnOp); ok {
 				if a, ok := u.X.(*ssa.Alloc); ok {
 					errCell = a
@@ -215,7 +251,7 @@ func propC15(c *Ctx) {
 			// the accumulated error is a field of a local checker value (`ic.err`), written by the checker's methods
 			var accField *types.Var
 			allRet := true
-			for _, r := range returnsOf(cui) {
+			for _, r := range returnsOf(vfn) {
 				f, base := loadedField(returnValues(r)[0])
 				if f == nil || !isErrorType(f.Type()) {
 					allRet = false
@@ -260,7 +296,7 @@ func propC15(c *Ctx) {
 							}
 						})
 						call, isCall := st.Val.(*ssa.Call)
-						if !(isCall && staticCallee(call) == safe && guardedByEdges(fn, st, fieldNil)) {
+						if !(isCall && safeLike(staticCallee(call)) && guardedByEdges(fn, st, fieldNil)) {
 							okAcc = false
 						}
 					})
@@ -271,7 +307,7 @@ func propC15(c *Ctx) {
 			}
 		}
 		if errCell != nil {
-			for _, r := range returnsOf(cui) {
+			for _, r := range returnsOf(vfn) {
 				if u, ok := returnValues(r)[0].(*ssa.UnOp); !ok || u.X != ssa.Value(errCell) {
 					okAcc = false
 				}
@@ -286,7 +322,7 @@ func propC15(c *Ctx) {
 					if definitelyNonNilError(st.Val, nil) {
 						continue
 					}
-					if isNilConst(st.Val) && fn == cui {
+					if isNilConst(st.Val) && fn == vfn {
 						continue // initialisation
 					}
 					// possibly-nil value (Safe's result): only when the cell is currently nil
@@ -298,14 +334,14 @@ func propC15(c *Ctx) {
 						}
 					}
 					call, isCall := st.Val.(*ssa.Call)
-					if !(isCall && staticCallee(call) == safe && guardedByEdges(fn, st, cellNil)) {
+					if !(isCall && safeLike(staticCallee(call)) && guardedByEdges(fn, st, cellNil)) {
 						okAcc = false
 					}
 				}
 			}
-			checkStores(cui, errCell)
-			withClosures(cui, func(f *ssa.Function) {
-				if f == cui {
+			checkStores(vfn, errCell)
+			withClosures(vfn, func(f *ssa.Function) {
+				if f == vfn {
 					return
 				}
 				for _, fv := range f.FreeVars {
@@ -315,10 +351,74 @@ func propC15(c *Ctx) {
 				}
 			})
 		}
-		c.Check("R15.3", "CheckUserInput/first-error-sticks", cui.Pos(), okAcc, "the result of every wstrings.Safe call is accumulated: a non-nil result is stored only into a still-nil error and is what CheckUserInput returns")
+		return okAcc
+	}
+	// … or fails fast: the error of every wstrings.Safe call, and of every sub-validator it delegates to, is
+	// tested where it is made and the failing arm returns an error
+	var subValidators []*ssa.Call // calls in CheckUserInput that hand part of the configuration to a validator of its own
+	var validatorSound func(vfn *ssa.Function, d int) bool
+	validatorSound = func(vfn *ssa.Function, d int) bool {
+		if accumulates(vfn) {
+			return true
+		}
+		if d > 2 {
+			return false
+		}
+		inClosure := false
+		withClosures(vfn, func(f *ssa.Function) {
+			if f != vfn && len(callsToFn(f, safe)) > 0 {
+				inClosure = true
+			}
+		})
+		if inClosure {
+			return false
+		}
+		n := 0
+		for _, ci := range callsIn(vfn) {
+			call, isCall := ci.(*ssa.Call)
+			cal := staticCallee(ci)
+			if cal == nil {
+				continue
+			}
+			isSub := cal != safe && cal.Blocks != nil && isRepoFunc(cal) && res.Reachable(cal)[safe]
+			if cal != safe && !isSub {
+				continue
+			}
+			if !isCall {
+				return false // deferred or spawned: its verdict is lost
+			}
+			e, has := errResult(call)
+			if !has || e == nil {
+				return false
+			}
+			isNil, nonNil := nilTestEdges(e)
+			if len(nonNil) == 0 {
+				return false
+			}
+			for _, ed := range nonNil {
+				if g, _ := errorArmLeaves(vfn, ed, isNil, nil); !g {
+					return false
+				}
+			}
+			if isSub {
+				if !validatorSound(cal, d+1) {
+					return false
+				}
+				if vfn == cui {
+					subValidators = append(subValidators, call)
+				}
+			}
+			n++
+		}
+		return n > 0
+	}
+	okAcc := validatorSound(cui, 0)
+	{
+		c.Check("R15.3", "CheckUserInput/first-error-sticks", cui.Pos(), okAcc, "no wstrings.Safe verdict is lost: a non-nil result is stored only into a still-nil error that CheckUserInput returns, or is tested on the spot with the failing arm returning an error (also through a validator CheckUserInput delegates to)")
 	}
 	// dashboard: SaveIntegration
 	okDash := false
+	var dashSafe map[string]bool // set when the dashboard calls a validator of integrations directly
 	var insIntegr, insSources *SQLSite
 	for i := range sites {
 		s := &sites[i]
@@ -341,6 +441,35 @@ func propC15(c *Ctx) {
 	if insIntegr != nil {
 		fn := insIntegr.Fn
 		cs := callsToFn(fn, cui)
+		// the dashboard may call the validator of integrations that CheckUserInput itself delegates to
+		// (CheckIntegrations(igs...)): what it validates is computed for that function on its own
+		if len(cs) == 0 {
+			for _, sv := range subValidators {
+				v := staticCallee(sv)
+				if p, ok := wk.pathOf(sv.Call.Args[0], env); !ok || p != ".Integrations" || len(v.Params) != 1 {
+					continue
+				}
+				if dcs := callsToFn(fn, v); len(dcs) == 1 {
+					cs = dcs
+					wk2 := newAPWalker(res)
+					wk2.stop[safe] = true
+					env2 := apEnv{v.Params[0]: ".Integrations"}
+					wk2.walk(v, env2)
+					dashSafe = map[string]bool{}
+					for _, e := range wk2.events {
+						isSafe := false
+						for _, f := range e.Fns {
+							if f == safe {
+								isSafe = true
+							}
+						}
+						if isSafe && e.Paths[0] != "" && !e.Cond {
+							dashSafe[e.Paths[0]] = true
+						}
+					}
+				}
+			}
+		}
 		if len(cs) == 1 {
 			e, _ := errResult(cs[0])
 			isNil, _ := nilTestEdges(e)
@@ -424,6 +553,10 @@ func propC15(c *Ctx) {
 		case strings.HasPrefix(p.Ingress, "shovel/config.Integrations:"):
 			if !okDash || !okAcc {
 				return false, "dashboard ingress is not dominated by a working validator (see R15.3)"
+			}
+			if dashSafe != nil {
+				path := ".Integrations[*]" + p.Path
+				return dashSafe[path] || (dashSafe[path+"#before"] && validatedByParts(path)), "dashboard-submitted integration position " + p.Path
 			}
 			return fileValidated(".Integrations[*]" + p.Path), "dashboard-submitted integration position " + p.Path
 		case strings.HasPrefix(p.Ingress, "shovel/config.Sources:"):
